@@ -129,6 +129,17 @@ def cases(tier, seed):
             P = pat.EXH(2) if d == 2 else pat.RND(3, 30, rng, max_len=5)
             for _ in range(12 if tier == 'quick' else 60):
                 add(dict(base, **opt), rng.choice(P), rng.choice(P))
+    # graded mode (operands hold whole grades) in degenerate metrics with non-null directions: grades of the intermediate
+    # products are then partly identically zero
+    for base in (dict(p=2, r=1), dict(p=1, q=1, r=1), dict(p=1, r=1), dict(p=3, r=1), dict(p=2, r=2)):
+        d = sum(base.values())
+        import itertools as _it
+        # (graded mode wants the blades of a grade in canonical order: lexicographic in the generator indices)
+        G = [[sum(1 << i for i in c) for c in _it.combinations(range(d), g)] for g in range(d + 1)]
+        unions = G + [G[0] + G[2], G[1] + G[2]] + ([G[1] + G[3]] if d >= 3 else [])
+        pairs = [(a_, b_) for a_ in unions for b_ in unions if len(a_) * len(b_) <= 40]
+        for a_, b_ in (pairs if (tier != 'quick' or d <= 3) else rng.sample(pairs, 10)):
+            add(dict(base, graded=True), a_, b_)
     # algebras coexisting in one process (shared blade names, different numbering / metric / options)
     out += coexist.cases(tier, seed, 306, n_quick=8)
     return out
